@@ -944,6 +944,9 @@ func TestVerifC16Establish(t *testing.T) {
 	rapid.Check(t, func(t *rapid.T) {
 		rec.Eval()
 		sc := genScenario(t)
+		if excludeKnown(&sc) {
+			rec.Excluded()
+		}
 		runEstablishScenario(sc, rec, func(f string, a ...any) { t.Helper(); t.Fatalf(f, a...) }, true)
 	})
 }
